@@ -987,7 +987,8 @@ def canon_key(key):
     kind = parts[-2]
     if kind in _MSG_KINDS or kind.startswith("assert:Overflow") or kind.startswith("assert:Division") or kind.startswith("assert:Remainder"):
         return key
-    parts[-1] = _IDENT.sub("$", parts[-1])
+    # `..` of a range is not a field access: keep it apart while blanking identifiers
+    parts[-1] = _IDENT.sub("$", parts[-1].replace("..", " \u2025 ")).replace(" \u2025 ", "..")
     return " # ".join(parts)
 
 
